@@ -590,6 +590,16 @@ class CProgram(object):
             self._tu[key] = info
         return self._tu[key]
 
+    def find_global(self, name):
+        """TUInfo of a translation unit that defines (initialises) the global `name`."""
+        for (t, gname, kind, link, line) in self.cdb.globals():
+            if gname == name:
+                info = self.tu(t.src)
+                d = info.globals.get(name)
+                if d is not None and _init_of(d):
+                    return info
+        return None
+
     def find_extern(self, name):
         """TUInfo of another translation unit that defines `name`."""
         F = self.cdb.functions()
@@ -783,6 +793,14 @@ class Machine(object):
         d = tu.globals.get(name)
         if d is None:
             raise Undecided("unknown variable %s" % name)
+        if d.get("storageClass") == "extern" and not _init_of(d):
+            # defined in another translation unit of the repository
+            other = self.prog.find_global(name)
+            if other is not None and other is not tu:
+                r = self.lookup_var(ref, other)
+                self.globals[key] = r
+                return r
+            raise Undecided("extern variable %s has no definition in the repository" % name)
         t = resolve(tu.ctype(d.get("type")))
         const = "const" in d.get("type", {}).get("qualType", "")
         p = self.alloc(t.size, name, "global", init=0)
@@ -1678,6 +1696,18 @@ def _b_posix_memalign(m, a):
     return 0
 
 
+def _b_strlen(m, a):
+    p = a[0]
+    n = 0
+    while True:
+        c = m.read_cells(P(p.obj, p.off + n), 1)[0]
+        if not isinstance(c, int):
+            raise Undecided("strlen of non-concrete data")
+        if c == 0:
+            return n
+        n += 1
+
+
 def _b_abort(m, a):
     raise CError("abort", "abort()/assert failure reached", m.line)
 
@@ -1763,7 +1793,7 @@ BUILTINS = {
     "memcmp": _b_memcmp, "__builtin_memcmp": _b_memcmp,
     "malloc": _b_malloc, "calloc": _b_calloc, "free": _b_free,
     "posix_memalign": _b_posix_memalign,
-    "abort": _b_abort, "__assert_fail": _b_abort,
+    "abort": _b_abort, "__assert_fail": _b_abort, "strlen": _b_strlen, "__builtin_strlen": _b_strlen,
     "printf": _b_noop, "fprintf": _b_noop, "puts": _b_noop,
     "__builtin_expect": lambda m, a: a[0],
     "__builtin_object_size": lambda m, a: (1 << 64) - 1,
